@@ -71,7 +71,16 @@ func (d *driver) driveRevisions(ntraces, nops int) {
 				for _, i := range rng.Perm(len(names))[:1+rng.Intn(len(names))] {
 					accs = append(accs, names[i])
 				}
-				d.exchange(Act{Op: "BeginRepl", S: 1, Kind: kind, Accs: accs, Target: int64(1 + rng.Intn(5000)), Cf: fl(cfClasses...), Af: flaw(rng, 3, "ovfLast", "ovfMid")}, "Round2Repl", fl(sfClasses...), d.stopPoint())
+				if rng.Intn(4) == 0 { // listed more than once: topped up, and paid for, once
+					for i, k := 0, 1+rng.Intn(3); i < k; i++ {
+						accs = append(accs, accs[rng.Intn(len(accs))])
+					}
+				}
+				sf := fl(sfClasses...)
+				if sf == "ok" && rng.Intn(3) == 0 {
+					sf = "dedup"
+				}
+				d.exchange(Act{Op: "BeginRepl", S: 1, Kind: kind, Accs: accs, Target: int64(1 + rng.Intn(5000)), Cf: fl(cfClasses...), Af: flaw(rng, 3, "ovfLast", "ovfMid")}, "Round2Repl", sf, d.stopPoint())
 			case x < 58 && cur < 30:
 				var secs []int
 				for i, k := 0, 1+rng.Intn(3); i < k; i++ {
@@ -100,8 +109,14 @@ func (d *driver) driveRevisions(ntraces, nops int) {
 					ln = cur + 1
 				}
 				d.exchange(Act{Op: "BeginRoots", S: 1, Off: off, Len: ln, Pf: fl(pfClasses...), Sf: fl(sfClasses...)}, "", "", pick(rng, "finish", "finish", "finish", "abort1"))
-			case x < 97:
+			case x < 95:
 				d.exchange(Act{Op: "BeginLatest", S: 1}, "", "", "finish")
+			case x < 98:
+				if len(deadline) == 0 { // (not in the deadline traces: a block more would move their schedule)
+					tr.do(Act{Op: "Confirm", S: 1})
+					d.res.Count("older_revisions_confirmed", tr.ad.Confirms)
+					tr.ad.Confirms = 0
+				}
 			default:
 				tr.do(Act{Op: "Truncated", S: 1})
 			}
